@@ -209,6 +209,8 @@ pub struct Ctx
     pub used_actors: u32,
     pub used_ents: u8,
     pub total_runs: u32,
+    /// Number of system-state constructions seen so far (`StateProbe::from_world`).
+    pub state_builds: u32,
     /// Materialised scripts, for replay artefacts.
     pub scripts: Vec<(RunId, Vec<Op>)>,
     pub tops: Vec<Op>,
@@ -270,6 +272,7 @@ impl Ctx
             used_actors: 0,
             used_ents: 0,
             total_runs: 0,
+            state_builds: 0,
             scripts: Vec::new(),
             tops: Vec::new(),
             actors_ready: 0,
